@@ -139,6 +139,55 @@ def run : Cap → List Act → Cap
     | some c' => run c' rest
     | none => run c rest
 
+/-! ## Code-level functions tied by translation (`Gen/FactsC17IR`, `Proofs/ConnCapIR.lean`)
+
+`SetMaxCount`'s body up to the `go` statement plus the body of the spawned goroutine, `Accept`'s
+unit bookkeeping, `limitListenerConn.Close` / `LimitListener.Close` (`sync.Once`). The step
+function above is proved to be built from these (`setMax_step_is_setMaxCount`,
+`adjust_step_is_adjBody`, `connClose_is_connCloseBody` in `Proofs/ConnCapIR.lean`). -/
+
+/-- what the goroutine spawned by `SetMaxCount` does, in order -/
+inductive AdjOp
+  | release (k : Int)      -- `s.sem.Release(k)`
+  | acquire (k : Int)      -- `s.sem.Acquire(context.Background(), k)`
+  | done                   -- `close(done)`
+deriving DecidableEq, Repr
+
+/-- body of `go func() { if n > old { Release(n-old) } else if n < old { Acquire(old-n) }; close(done) }()` -/
+def adjBody (n old : Int) : List AdjOp :=
+  (if n > old then [AdjOp.release (n - old)] else if n < old then [AdjOp.acquire (old - n)] else []) ++ [AdjOp.done]
+
+/-- `Semaphore.SetMaxCount(n)` on `realCapacity = realCap`: (new `realCapacity`, recorded actions
+of the spawned goroutine). `n` is clamped to `maxCapacity`. -/
+def setMaxCount (realCap n : Int) : Int × List AdjOp :=
+  let n' := if n > M then M else n
+  (n', adjBody n' realCap)
+
+/-- one recorded action applied to the semaphore by adjustment goroutine `id` -/
+def applyAdjOp (c : Cap) (id : Nat) : AdjOp → Option Cap
+  | .release k => if k ≤ c.cur then some (semRelease { c with effCap := c.effCap + k } k) else none
+  | .acquire k => some (semAcquire c ⟨id, k, .adj⟩)
+  | .done => some c
+
+def applyAdjOps (c : Cap) (id : Nat) : List AdjOp → Option Cap
+  | [] => some c
+  | o :: r => match applyAdjOp c id o with
+    | some c' => applyAdjOps c' id r
+    | none => none
+
+/-- `LimitListener.Accept`: `acquired` = outcome of `l.acquire()`, `ctxErr` = `l.ctx.Err() != nil`,
+`innerErr` = the inner `Listener.Accept` failed. Result: (a connection is returned, units of the
+semaphore still held by this call when it returns). -/
+def acceptBody (acquired ctxErr innerErr : Bool) : Bool × Int :=
+  let units : Int := if acquired then 1 else 0
+  if ctxErr then (false, if acquired then units - 1 else units)
+  else if innerErr then (false, units - 1)
+  else (true, units)
+
+/-- `limitListenerConn.Close` (resp. `LimitListener.Close`): `once` = the `sync.Once` has fired
+before; result: (`once` afterwards, number of `release` (resp. `cancel`) calls made by this Close). -/
+def connCloseBody (once : Bool) : Bool × Nat := (true, if once then 0 else 1)
+
 /-! ## MQTT proxy: `maxAllowedConnection` -/
 
 /-- `clients` = keys of `Broker.clients`; `passed` = connections that got through
